@@ -35,11 +35,12 @@ def np2tp(dt):
 
 
 class V:
-    __slots__ = ("name", "arrs", "kind", "mag", "clean", "seq", "decl")
+    __slots__ = ("name", "arrs", "kind", "mag", "clean", "seq", "decl", "nondet")
 
-    def __init__(self, name, arrs, kind, mag=INPUT_MAG, clean=True, seq=False, decl=None):
+    def __init__(self, name, arrs, kind, mag=INPUT_MAG, clean=True, seq=False, decl=None, nondet=False):
         self.name, self.arrs, self.kind = name, arrs, kind
         self.mag, self.clean, self.seq, self.decl = mag, clean, seq, decl
+        self.nondet = nondet
 
     @property
     def a(self):
@@ -233,7 +234,8 @@ class Gen:
                 for a in arrs:
                     if a.dtype.kind == "f" and a.size and not np.isfinite(a).all():
                         c = False
-            v = V(o, arrs, "node", mag=in_mag if mag is None else mag, clean=c, seq=seq)
+            v = V(o, arrs, "node", mag=in_mag if mag is None else mag, clean=c, seq=seq,
+                  nondet=any(i.nondet for i in ins if i is not None) or bool(getattr(self, "_mark_nondet", False)))
             vs.append(v)
             self.vals.append(v)
         if tag:
@@ -246,7 +248,7 @@ class Gen:
     # ------------------------------------------------------------------ inputs
     def new_input(self, dtype=None, rank=None, shape=None):
         rng = self.rng
-        dtype = dtype or rng.choice([F32, F32, F32, F32, I64, I32, F64, BOOL, F16])
+        dtype = dtype or rng.choice([F32, F32, F32, F32, I64, I32, F64, BOOL])   # no float16: ORT's CPU EP elevates f16 ops to f32 depending on graph structure
         if shape is None:
             rank = rng.choice([0, 1, 2, 2, 3, 3, 4]) if rank is None else rank
             shape = []
@@ -680,7 +682,7 @@ def op_range(g):
     return g.add("Range", [g.const(np.array(st, dtype=dt)), g.const(np.array(lim, dtype=dt)), g.const(np.array(d, dtype=dt))], mag=8)
 
 
-_CASTS = [F32, F64, I64, I32, BOOL, F16]
+_CASTS = [F32, F64, I64, I32, BOOL]
 
 
 def op_cast(g):
@@ -720,7 +722,7 @@ def op_reduce(g):
     if op in ("ReduceMax", "ReduceMin") and any(0 in a.shape for a in x.arrs):
         raise Bail("empty max")
     axes = sorted(set(g.rng.randrange(-x.rank, x.rank) % x.rank for _ in range(g.rng.choice([1, 1, 2]))))
-    if any(a.shape[ax] == 0 for a in x.arrs for ax in axes):
+    if any(a.size == 0 for a in x.arrs):
         raise Bail("reduction over a size-0 axis: ORT 1.30 returns a size-0 result where the spec says size 1")
     if g.rng.random() < 0.5:
         axes = [a - x.rank for a in axes]
@@ -1113,6 +1115,35 @@ def m_flatten_reshape(g):
     return g.add("Flatten", [x], axis=g.rng.choice([0, 1, x.rank, -1]), mag=x.mag)
 
 
+def m_random(g):
+    """Genuinely nondeterministic ops: must be preserved (never folded); values are not compared, only dtype/shape
+    and the fact that two runs still differ."""
+    form = g.rng.choice(["uniform", "normal_like", "dropout_train", "uniform_const_chain"])
+    g.hit("motif:random:" + form)
+    g._mark_nondet = True
+    try:
+        if form == "uniform":
+            r = g.add("RandomUniform", [], shape=[2, 3], dtype=TP.FLOAT, mag=1, clean=True)
+        elif form == "uniform_const_chain":
+            # all inputs constant: only the nondeterminism guard keeps this from being folded
+            r0 = g.add("RandomNormal", [], shape=[4], dtype=TP.FLOAT, mag=10, clean=True)
+            g._mark_nondet = False
+            r = g.add("Mul", [r0, g.const(np.array(2.0, dtype=F32))], mag=20)
+        elif form == "normal_like":
+            x = g.pick(lambda v: _f32(v) and v.static() and all(a.size > 1 for a in v.arrs))
+            r = g.add("RandomNormalLike", [x], mag=10, clean=True)
+        else:
+            if g.opset < 12:
+                raise Bail("opset")
+            x = g.pick(lambda v: _f32(v) and all(a.size >= 16 for a in v.arrs))
+            r = g.add("Dropout", [x, g.const(np.array(0.5, dtype=F32)), g.const(np.array(True))], mag=x.mag * 2)
+    finally:
+        g._mark_nondet = False
+    if g.depth == 0:
+        g.force_out.append(r)
+    return r
+
+
 # ------------------------------------------------------------------ control flow
 def _body(g, kind, ninputs=()):
     sub = Gen(g.rng, g.opset, g.symbolic, g.ir_version, prefix=g.prefix, outer=g, depth=g.depth + 1)
@@ -1158,9 +1189,14 @@ def op_if(g, max_body=4):
                                     initializer=sub.inits))
     out = g.fresh("t")
     node = oh.make_node("If", [cond.name], [out], then_branch=graphs[0], else_branch=graphs[1])
-    sub_events = {}
-    v = g.add_nodes([node], [out], [cond], mag=max(b[1][0].mag for b in branches),
-                    clean=all(b[1][0].clean for b in branches), tag="If")
+    nd = any(v.nondet for sub, _ in branches for v in sub.vals) or any(
+        (g.lookup(r) is not None and g.lookup(r).nondet) for sub, _ in branches for r in sub.captured)
+    g._mark_nondet = nd
+    try:
+        v = g.add_nodes([node], [out], [cond], mag=max(b[1][0].mag for b in branches),
+                        clean=all(b[1][0].clean for b in branches), tag="If")
+    finally:
+        g._mark_nondet = False
     return v
 
 
@@ -1199,7 +1235,11 @@ def op_loop(g, max_body=3):
     condv = g.const(np.array(True)) if g.rng.random() < 0.6 else None
     outs = [g.fresh("t")] + ([g.fresh("t")] if scan is not None else [])
     node = oh.make_node("Loop", [M.name, condv.name if condv else "", x.name], outs, body=body)
-    vs = g.add_nodes([node], outs, [M, x] + ([condv] if condv else []), mag=x.mag * 64 + 64, tag="Loop")
+    g._mark_nondet = any(v.nondet for v in sub.vals) or any((g.lookup(r) is not None and g.lookup(r).nondet) for r in sub.captured)
+    try:
+        vs = g.add_nodes([node], outs, [M, x] + ([condv] if condv else []), mag=x.mag * 64 + 64, tag="Loop")
+    finally:
+        g._mark_nondet = False
     return vs[0] if isinstance(vs, list) else vs
 
 
@@ -1255,7 +1295,7 @@ BASIC_OPS = [
 MOTIFS = [
     (m_noop_arith, 5), (m_cast_cast, 3), (m_reshape_reshape, 3), (m_transpose_transpose, 3), (m_clip_relu, 4),
     (m_shape_chain, 5), (m_identity_out, 3), (m_const_fold_chain, 5), (m_init_input_chain, 2), (m_cse, 2),
-    (m_unsq_unsq, 2), (m_flatten_reshape, 1),
+    (m_unsq_unsq, 2), (m_flatten_reshape, 1), (m_random, 2),
 ]
 CONTROL = [(op_if, 3), (op_loop, 2), (op_function_call, 2)]
 
@@ -1339,7 +1379,7 @@ def finish(g, n_outputs=None, name="gen"):
         "inputs": [{"name": v.name, "dtype": str(v.dtype), "decl": v.decl} for v in g.inputs],
         "init_inputs": [{"name": v.name, "dtype": str(v.dtype), "shape": list(v.shape)} for v in g.init_inputs],
         "outputs": [v.name for v in outs],
-        "nondet_outputs": [],
+        "nondet_outputs": [v.name for v in outs if v.nondet],
         "events": dict(g.events),
         "n_nodes": len(g.nodes),
     }
